@@ -269,7 +269,7 @@ func runCase(seed int64, idx int, pr params) *caseResult {
 		c.Counts = map[string]int{}
 		res.lostReply += c.LostReplyDisagreements
 		res.inconcl = append(res.inconcl, c.Inconclusive...)
-		if len(c.Alarms) > 0 {
+		if c.ownAlarms() > 0 {
 			// the clone found something: report it with the clone's own history as witness
 			s.Alarms = append(s.Alarms, c.Alarms...)
 			s.Steps = c.Steps
@@ -279,7 +279,13 @@ func runCase(seed int64, idx int, pr params) *caseResult {
 	}
 	if pr.templates && idx%3 == 0 {
 		s.runTemplate(idx / 3 % 3)
-		if len(s.Alarms) > 0 {
+		if s.ownAlarms() > 0 {
+			return finish()
+		}
+	}
+	if pr.templates && idx%3 == 1 {
+		s.runPartialPreownedTemplate()
+		if s.ownAlarms() > 0 {
 			return finish()
 		}
 	}
@@ -308,7 +314,7 @@ func runCase(seed int64, idx int, pr params) *caseResult {
 		if s.W.Provider != nil {
 			nprov = s.W.Provider.OpCalls()
 		}
-		if len(s.Alarms) > 0 {
+		if s.ownAlarms() > 0 {
 			return finish()
 		}
 		s.noteSituations(op)
@@ -385,7 +391,7 @@ func runCase(seed int64, idx int, pr params) *caseResult {
 		}
 		if i%9 == 8 {
 			s.exec(Op{Kind: "quiesce"}, nil, nil)
-			if len(s.Alarms) > 0 {
+			if s.ownAlarms() > 0 {
 				return finish()
 			}
 		}
@@ -596,7 +602,7 @@ func (s *Sim) runTemplate(kind int) {
 			return
 		}
 		deliverAll()
-		for len(s.W.Releases) > 0 && len(s.Alarms) == 0 { // now the old incarnation's delete is handled
+		for len(s.W.Releases) > 0 && s.ownAlarms() == 0 { // now the old incarnation's delete is handled
 			do(Op{Kind: "release", Idx: 0})
 			s.noteSituations(Op{Kind: "release"})
 		}
@@ -611,7 +617,7 @@ func (s *Sim) runTemplate(kind int) {
 			return
 		}
 		bound := bindIt(b) // may have to wait for the delete event
-		for len(s.W.Releases) > 0 && len(s.Alarms) == 0 {
+		for len(s.W.Releases) > 0 && s.ownAlarms() == 0 {
 			do(Op{Kind: "release", Idx: 0})
 			s.noteSituations(Op{Kind: "release"})
 		}
@@ -631,7 +637,7 @@ func (s *Sim) runTemplate(kind int) {
 		bindIt(b)
 		s.noteSituations(Op{Kind: "bind", Pod: string(b.UID)})
 		deliverAll()
-		for len(s.W.Releases) > 0 && len(s.Alarms) == 0 {
+		for len(s.W.Releases) > 0 && s.ownAlarms() == 0 {
 			do(Op{Kind: "release", Idx: 0})
 			s.noteSituations(Op{Kind: "release"})
 		}
@@ -641,3 +647,77 @@ func (s *Sim) runTemplate(kind int) {
 }
 
 var _ = model.IPStr
+
+// runPartialPreownedTemplate produces a pod identity that holds an IP for some but not all of its requested ranges
+// when it is scheduled again: bind with k>=2 ranges, delete the pod (IPs reserved), release exactly one of the IPs
+// through the API, re-create the pod, filter, bind.
+func (s *Sim) runPartialPreownedTemplate() {
+	var wl *Workload
+	var wi int
+	for i, w := range s.WLs {
+		if w.Kind != KDp && w.effPolicy() != 0 && len(rangeLists(w.Ranges)) >= 2 {
+			wl, wi = w, i
+			break
+		}
+	}
+	if wl == nil {
+		return
+	}
+	do := func(o Op) { s.exec(o, nil, nil) }
+	deliverAll := func() {
+		for _, r := range []string{"sts", "dp", "pools", "pods"} {
+			for s.W.Pending(r) > 0 && s.ownAlarms() == 0 {
+				do(Op{Kind: "deliver", Res: r})
+			}
+		}
+	}
+	first := func() *corev1.Pod {
+		ps := s.podsOf(wl)
+		if len(ps) == 0 {
+			return nil
+		}
+		return ps[0]
+	}
+	do(Op{Kind: "create", WL: wi})
+	deliverAll()
+	a := first()
+	if a == nil {
+		return
+	}
+	do(Op{Kind: "filter", Pod: string(a.UID)})
+	r := s.Pods[string(a.UID)]
+	if r == nil || len(r.Offered) == 0 {
+		return
+	}
+	do(Op{Kind: "bind", Pod: string(a.UID), Node: r.Offered[s.rng.Intn(len(r.Offered))]})
+	b, ok := s.told()[string(a.UID)]
+	if !ok || len(b.IPs) < 2 {
+		return
+	}
+	deliverAll()
+	do(Op{Kind: "delete", Pod: string(a.UID)})
+	deliverAll()
+	for len(s.W.Releases) > 0 && s.ownAlarms() == 0 {
+		do(Op{Kind: "release", Idx: 0})
+	}
+	// give up the IP of one range (the first one in half of the cases)
+	drop := b.IPs[0]
+	if s.rng.Intn(2) == 0 {
+		drop = b.IPs[s.rng.Intn(len(b.IPs))]
+	}
+	do(Op{Kind: "apirelease", Str: drop})
+	s.Counts["template_partial_preowned"]++
+	do(Op{Kind: "create", WL: wi})
+	deliverAll()
+	n := first()
+	if n == nil {
+		return
+	}
+	do(Op{Kind: "filter", Pod: string(n.UID)})
+	r = s.Pods[string(n.UID)]
+	if r == nil || len(r.Offered) == 0 {
+		return
+	}
+	do(Op{Kind: "bind", Pod: string(n.UID), Node: r.Offered[s.rng.Intn(len(r.Offered))]})
+	deliverAll()
+}
